@@ -124,3 +124,42 @@ def must_assign(f: FuncInfo, target_text: str) -> bool:
         return False
 
     return g.all_path_pass(g.entry, hit) is None
+
+
+OPTIONAL_NUMBER_CALLS = {"safe_float", "safe_int"}
+
+
+def optional_number_truth_rule(model: Model, rep: Report, rid: str, funcs: Sequence[FuncInfo], min_instances: int) -> None:
+    """Operands converted by safe_float/safe_int are None when unusable and may legitimately be 0: wherever such a value
+    decides a branch it must be compared with None by identity; a truth test treats the number 0 as invalid."""
+    r = rep.rule(rid, "GUARD", "numbers converted with safe_float/safe_int (None = unusable, 0 = a value) are tested with `is None`, never for truth", min_instances)
+    for f in funcs:
+        if isinstance(f.node, ast.Lambda):
+            continue
+        opt: Set[str] = set()
+        for n in walk_no_nested(f.node):
+            if isinstance(n, ast.Assign) and isinstance(n.value, ast.Call) and (dotted(n.value.func) or "").split(".")[-1] in OPTIONAL_NUMBER_CALLS:
+                opt |= {t.id for t in n.targets if isinstance(t, ast.Name)}
+            elif isinstance(n, ast.NamedExpr) and isinstance(n.value, ast.Call) and (dotted(n.value.func) or "").split(".")[-1] in OPTIONAL_NUMBER_CALLS and isinstance(n.target, ast.Name):
+                opt.add(n.target.id)
+        if not opt:
+            continue
+        ctx: List[ast.AST] = []
+        for n in walk_no_nested(f.node):
+            if isinstance(n, (ast.If, ast.While, ast.IfExp, ast.Assert)):
+                ctx.append(n.test)
+            elif isinstance(n, ast.BoolOp):
+                ctx += n.values
+            elif isinstance(n, ast.UnaryOp) and isinstance(n.op, ast.Not):
+                ctx.append(n.operand)
+            elif isinstance(n, ast.comprehension):
+                ctx += n.ifs
+        seen: Set[int] = set()
+        for t in ctx:
+            if id(t) in seen:
+                continue
+            seen.add(id(t))
+            if isinstance(t, ast.Name) and t.id in opt:
+                r.violation(site(f, t), f.qualname, f"`{t.id}` tested for truth", f"`{t.id}` comes from safe_float/safe_int: 0 is a legitimate operand (e.g. `0 w` selects the thinnest line) but is falsy, so it is rejected like an unparsable one")
+            elif isinstance(t, ast.Compare) and len(t.ops) == 1 and isinstance(t.ops[0], (ast.Is, ast.IsNot)) and isinstance(t.left, ast.Name) and t.left.id in opt and isinstance(t.comparators[0], ast.Constant) and t.comparators[0].value is None:
+                r.ok(site(f, t), f.qualname, f"`{unparse(t)}`")
